@@ -84,6 +84,9 @@ func Workers() int {
 	if *flagWork > 0 {
 		return *flagWork
 	}
+	if v, err := strconv.Atoi(os.Getenv("VERIF_WORKERS")); err == nil && v > 0 {
+		return v // development aid on a shared machine; registered commands do not set it
+	}
 	n := runtime.NumCPU()
 	if n > 16 {
 		n = 16
